@@ -6,14 +6,23 @@
 (*                                                                         *)
 (* Part 1  shapes and their objects.  A shape is                           *)
 (*     [decl : Seq(Decl), ment : Seq(Mention)]                             *)
-(*   Decl    == [path : Seq(STRING), kind, dims : Seq(Nat), ty : STRING]   *)
+(*   Decl    == [path : Seq(STRING), kind, dims : Seq(Nat), rag, ty]       *)
 (*     `path` is the sequence of attribute names from the top component    *)
 (*     (<<>>, implicit), `kind` one of comp / ifc / InPort / OutPort /     *)
 (*     Wire / CallerPort / CalleePort, `dims` the dimensions of the        *)
-(*     (homogeneous) list the attribute holds (<<>> = no list), `ty` a key *)
-(*     of Types for signals.  Every component implicitly declares the      *)
-(*     in-ports clk and reset; connect-mention number j declares the sink  *)
-(*     wire k<j> it is connected to in its host component.                 *)
+(*     regular list the attribute holds (<<>> = no list), `ty` a key of    *)
+(*     Types for signals.  `rag` # <<>> (then dims = <<>>) makes the       *)
+(*     attribute a ragged / mixed list: a tree whose leaves are objects,   *)
+(*     e.g. [ o, [ o, [ o, o ] ], [] ], given as its depth-first           *)
+(*     flattening  Seq([ix : index path, leaf : BOOLEAN])  with one entry  *)
+(*     per object (leaf) and one per empty sub-list (~leaf, no object).    *)
+(*     The object at index path <<1, 1, 0>> of attribute a is a[1][1][0]   *)
+(*     (one [i] per list passed, so names in one list differ in length);   *)
+(*     its parent is the component / interface holding the attribute.      *)
+(*     Every element of a list has the same sub-shape (the declarations    *)
+(*     below it).  Every component implicitly declares the in-ports clk    *)
+(*     and reset; connect-mention number j declares the sink wire k<j> it  *)
+(*     is connected to in its host component.                              *)
 (*   Mention == [path, ix, expr, how]: a statement in the class of the     *)
 (*     host component of the signal declared at `path` that evaluates      *)
 (*     s.<seg>[ix]...<expr>, either read in an update block ("upblk") or   *)
@@ -45,7 +54,10 @@ CONSTANTS MaxDecl,    \* max explicit declarations of a shape
           SigTypes,   \* signal types offered (keys of Types)
           SigKindsE,  \* signal classes offered
           MpKindsE,   \* method port classes offered
-          ChainOnly   \* TRUE: every declaration is the child of the previous one
+          ChainOnly,  \* TRUE: every declaration is the child of the previous one
+          RagSize,    \* ragged lists: max entries (objects + empty sub-lists) over all ragged lists of a shape
+          RagDepth,   \* ragged lists: max nesting of lists (1 = flat); 0 = no ragged lists offered
+          RagEmpty    \* ragged lists: max empty sub-lists per list
 
 VARIABLES decl, ment
 vars == <<decl, ment>>
@@ -92,6 +104,24 @@ Root          == Obj(<<>>, <<>>)
 RECURSIVE Idx(_)
 Idx(dims) == IF dims = <<>> THEN {<<>>}
              ELSE {<<i>> \o r : i \in 0 .. dims[1] - 1, r \in Idx(Tail(dims))}
+
+\* ragged / mixed lists
+REntry(ix, leaf) == [ix |-> ix, leaf |-> leaf]
+RagLeaves(rag)   == SelectSeq(rag, LAMBDA e : e.leaf)
+IdxD(d)          == IF d.rag = <<>> THEN Idx(d.dims) ELSE {e.ix : e \in Range(RagLeaves(d.rag))}
+                    \* index paths of the objects of a declaration: one [i] per level of list passed
+
+\* the flattening is that of a list tree: index paths non-empty, in depth-first (lexicographic)
+\* order, none a prefix of another, and the indices below every list are 0 .. n-1
+LexLess(a, b) == \E k \in 1 .. Len(a) : /\ k <= Len(b) /\ a[k] < b[k]
+                                        /\ \A j \in 1 .. k - 1 : a[j] = b[j]
+RagOK(rag) ==
+    /\ \A i \in DOMAIN rag : /\ rag[i].ix # <<>> /\ rag[i].leaf \in BOOLEAN
+                             /\ \A k \in DOMAIN rag[i].ix : rag[i].ix[k] \in Nat
+    /\ \A i, j \in DOMAIN rag : i < j => LexLess(rag[i].ix, rag[j].ix)
+    /\ \A i \in DOMAIN rag : \A k \in DOMAIN rag[i].ix :
+          rag[i].ix[k] > 0 => \E j \in DOMAIN rag :
+                                 IsPrefix(Append(SubSeq(rag[i].ix, 1, k - 1), rag[i].ix[k] - 1), rag[j].ix)
 
 MaxOf(S) == CHOOSE k \in S : \A j \in S : j <= k
 
@@ -159,26 +189,26 @@ HostPath(sh, path) ==           \* longest proper prefix that is a component
 ExplAt(sh, path) == CHOOSE d \in Range(sh.decl) : d.path = path
 
 Implicit(sh) ==
-    {[path |-> Append(c, n), kind |-> "InPort", dims |-> <<>>, ty |-> "B1"]
+    {[path |-> Append(c, n), kind |-> "InPort", dims |-> <<>>, rag |-> <<>>, ty |-> "B1"]
         : c \in CompPaths(sh), n \in {"clk", "reset"}}
     \cup {[path |-> Append(HostPath(sh, sh.ment[j].path), "k" \o ToString(j)), kind |-> "Wire",
-           dims |-> <<>>, ty |-> ExprTy(ExplAt(sh, sh.ment[j].path).ty, sh.ment[j].expr)]
+           dims |-> <<>>, rag |-> <<>>, ty |-> ExprTy(ExplAt(sh, sh.ment[j].path).ty, sh.ment[j].expr)]
         : j \in {i \in DOMAIN sh.ment : sh.ment[i].how = "connect"}}
 
 AllDecl(sh) == Range(sh.decl) \cup Implicit(sh)
 
-\* per declaration path: class, dims, type and the length of the host component's path
+\* per declaration path: class, index paths of its list, type and the length of the host component's path
 Info(sh) ==
     LET AD == AllDecl(sh) IN
     [pth \in {<<>>} \cup {d.path : d \in AD} |->
-        IF pth = <<>> THEN [kind |-> "comp", dims |-> <<>>, ty |-> "", hl |-> 0]
+        IF pth = <<>> THEN [kind |-> "comp", idx |-> {<<>>}, ty |-> "", hl |-> 0]
         ELSE LET d == CHOOSE d \in AD : d.path = pth
-             IN  [kind |-> d.kind, dims |-> d.dims, ty |-> d.ty, hl |-> Len(HostPath(sh, pth))]]
+             IN  [kind |-> d.kind, idx |-> IdxD(d), ty |-> d.ty, hl |-> Len(HostPath(sh, pth))]]
 
 RECURSIVE InstOf(_, _)
 InstOf(inf, path) ==            \* instance paths of a declaration (lists are not objects)
     IF path = <<>> THEN {<<>>}
-    ELSE {Append(q, Seg(Last(path), i)) : q \in InstOf(inf, Front(path)), i \in Idx(inf[path].dims)}
+    ELSE {Append(q, Seg(Last(path), i)) : q \in InstOf(inf, Front(path)), i \in inf[path].idx}
 
 PathOf(o)        == [i \in 1 .. Len(o.p) |-> o.p[i].n]
 ViewsAt(inf, pth) == IF inf[pth].kind \in SigKinds THEN ViewsTab[inf[pth].ty] ELSE {<<>>}
@@ -189,7 +219,7 @@ ForAllowed(inf, P(_)) ==        \* quantifies over Allowed(inf) without building
 
 IsAllowed(inf, o) ==
     /\ PathOf(o) \in DOMAIN inf
-    /\ \A i \in DOMAIN o.p : o.p[i].ix \in Idx(inf[SubSeq(PathOf(o), 1, i)].dims)
+    /\ \A i \in DOMAIN o.p : o.p[i].ix \in inf[SubSeq(PathOf(o), 1, i)].idx
     /\ o.v \in ViewsAt(inf, PathOf(o))
 
 Materialised(sh, inf, m) ==
@@ -203,7 +233,7 @@ WFMention(sh, inf, m) ==
     /\ \E d \in Range(sh.decl) : d.path = m.path /\ d.kind \in SigKinds
     /\ LET hp == HostPath(sh, m.path) IN
        /\ Len(m.ix) = Len(m.path) - Len(hp)
-       /\ \A k \in DOMAIN m.ix : m.ix[k] \in Idx(inf[SubSeq(m.path, 1, Len(hp) + k)].dims)
+       /\ \A k \in DOMAIN m.ix : m.ix[k] \in inf[SubSeq(m.path, 1, Len(hp) + k)].idx
     /\ m.expr # <<>>
     /\ WFExpr(inf[m.path].ty, Types[inf[m.path].ty].w, FALSE, m.expr)
     /\ m.how \in {"upblk", "connect"}
@@ -297,7 +327,25 @@ KindOfPath(path) == IF path = <<>> THEN "comp" ELSE (CHOOSE d \in Range(decl) : 
 
 Init == decl = <<>> /\ ment = {}
 
-AddDecl(par, kind, dc, ty) ==
+\* the list trees offered: RagItems(n, d) one element of a list (an object, an empty list or a
+\* non-empty list nested at most d deep) with at most n entries, flattened; RagSeqs(n, d, k) the
+\* element sequences k, k+1, ... of a list with at most n entries in total
+RECURSIVE RagItems(_, _), RagSeqs(_, _, _)
+RagItems(n, d) == {<<REntry(<<>>, TRUE)>>} \cup
+                  (IF d > 0 THEN {<<REntry(<<>>, FALSE)>>} \cup (RagSeqs(n, d, 0) \ {<<>>}) ELSE {})
+RagSeqs(n, d, k) == {<<>>} \cup
+    (IF n = 0 THEN {}
+     ELSE UNION {{[j \in DOMAIN it |-> REntry(<<k>> \o it[j].ix, it[j].leaf)] \o r
+                    : r \in RagSeqs(n - Len(it), d, k + 1)} : it \in RagItems(n, d - 1)})
+RagTab == [n \in 0 .. RagSize |->                                            \* constant
+             IF n = 0 \/ RagDepth = 0 THEN {}
+             ELSE {t \in RagSeqs(n, RagDepth, 0) \ {<<>>}
+                     : Cardinality({i \in DOMAIN t : ~t[i].leaf}) <= RagEmpty}]
+RagUsed == FoldLeft(LAMBDA acc, d : acc + Len(d.rag), 0, decl)
+ListChoices == {[dims |-> DimOf(c), rag |-> <<>>] : c \in DimCodes}
+               \cup {[dims |-> <<>>, rag |-> t] : t \in RagTab[RagSize - RagUsed]}
+
+AddDecl(par, kind, ls, ty) ==
     /\ ment = {}
     /\ Len(decl) < MaxDecl
     /\ Len(par) < MaxDepth
@@ -305,13 +353,13 @@ AddDecl(par, kind, dc, ty) ==
     /\ decl # <<>> => OrdOf(par) >= OrdOf(Front(Last(decl).path))      \* breadth-first canonical order
     /\ (ChainOnly /\ decl # <<>>) => par = Last(decl).path
     /\ decl' = Append(decl, [path |-> Append(par, Letters[Cardinality(Children(par)) + 1]),
-                             kind |-> kind, dims |-> DimOf(dc), ty |-> ty])
+                             kind |-> kind, dims |-> ls.dims, rag |-> ls.rag, ty |-> ty])
     /\ UNCHANGED ment
 
-AddComp(par, dc)        == KindOfPath(par) = "comp" /\ AddDecl(par, "comp", dc, "")
-AddIfc(par, dc)         == AddDecl(par, "ifc", dc, "")
-AddSig(par, k, dc, ty)  == AddDecl(par, k, dc, ty)
-AddMp(par, k, dc)       == AddDecl(par, k, dc, "")
+AddComp(par, ls)        == KindOfPath(par) = "comp" /\ AddDecl(par, "comp", ls, "")
+AddIfc(par, ls)         == AddDecl(par, "ifc", ls, "")
+AddSig(par, k, ls, ty)  == AddDecl(par, k, ls, ty)
+AddMp(par, k, ls)       == AddDecl(par, k, ls, "")
 
 \* mention expressions: field steps down to a leaf or a struct view, then up to n slices / bit indices
 RECURSIVE SlExprs(_, _)
@@ -327,10 +375,16 @@ Exprs(ty, n) ==
                              : k \in DOMAIN Types[ty].fs}
 ExprTab == [ty \in SigTypes |-> [n \in 1 .. MaxSl |-> Exprs(ty, n) \ {<<>>}]]   \* constant
 
+SegDecl(d, hp, k) == CHOOSE e \in Range(decl) : e.path = SubSeq(d.path, 1, Len(hp) + k)
+
 CornerIx(d, hp, z) ==           \* indices of the segments below the host: all first or all last
     [k \in 1 .. Len(d.path) - Len(hp) |->
-        LET dm == (CHOOSE e \in Range(decl) : e.path = SubSeq(d.path, 1, Len(hp) + k)).dims
-        IN  [j \in DOMAIN dm |-> IF z THEN 0 ELSE dm[j] - 1]]
+        LET e == SegDecl(d, hp, k) IN
+        IF e.rag = <<>> THEN [j \in DOMAIN e.dims |-> IF z THEN 0 ELSE e.dims[j] - 1]
+        ELSE LET lv == RagLeaves(e.rag) IN (IF z THEN lv[1] ELSE lv[Len(lv)]).ix]
+
+Reachable(d, hp) ==             \* the host's class can name an instance (no list on the way is without objects)
+    \A k \in 1 .. Len(d.path) - Len(hp) : IdxD(SegDecl(d, hp, k)) # {}
 
 \* a view can be connected to a sink wire when its signal is written by the host's own update
 \* block (Wire, OutPort) or is an in-port hosted by the top component
@@ -343,7 +397,8 @@ MentionChoices ==
       UNION {{[path |-> d.path, ix |-> CornerIx(d, hp, z), expr |-> e, how |-> h]
                 : z \in BOOLEAN, e \in ExprTab[d.ty][IF h = "upblk" THEN 1 ELSE MaxSl]}
              : h \in Hows(d, hp)}
-      : d \in {e \in Range(decl) : e.kind \in SigKinds}}
+      : d \in {e \in Range(decl) : /\ e.kind \in SigKinds
+                                    /\ Reachable(e, HostPath([decl |-> decl, ment |-> <<>>], e.path))}}
 
 AddMention(m) ==
     /\ m \notin ment
@@ -352,10 +407,10 @@ AddMention(m) ==
 
 MentionPhase == Len(decl) <= MaxDeclM /\ Cardinality(ment) < MaxMent
 
-DoAddComp    == \E par \in Containers, dc \in DimCodes : AddComp(par, dc)
-DoAddIfc     == \E par \in Containers, dc \in DimCodes : AddIfc(par, dc)
-DoAddSig     == \E par \in Containers, dc \in DimCodes, k \in SigKindsE, ty \in SigTypes : AddSig(par, k, dc, ty)
-DoAddMp      == \E par \in Containers, dc \in DimCodes, k \in MpKindsE : AddMp(par, k, dc)
+DoAddComp    == \E par \in Containers, ls \in ListChoices : AddComp(par, ls)
+DoAddIfc     == \E par \in Containers, ls \in ListChoices : AddIfc(par, ls)
+DoAddSig     == \E par \in Containers, ls \in ListChoices, k \in SigKindsE, ty \in SigTypes : AddSig(par, k, ls, ty)
+DoAddMp      == \E par \in Containers, ls \in ListChoices, k \in MpKindsE : AddMp(par, k, ls)
 DoAddMention == MentionPhase /\ \E m \in MentionChoices : AddMention(m)
 
 Next == DoAddComp \/ DoAddIfc \/ DoAddSig \/ DoAddMp \/ DoAddMention
@@ -378,6 +433,7 @@ ShapeOKOn(sh, inf) ==
           /\ d.kind \in SigKinds => d.ty \in DOMAIN Types
           /\ CatOf(d.kind) # "other"
           /\ Last(d.path) \in Range(Letters)       \* (clk, reset and the sinks k<j> are implicit)
+          /\ d.rag # <<>> => d.dims = <<>> /\ RagOK(d.rag)
     /\ \A j \in DOMAIN sh.ment : WFMention(sh, inf, sh.ment[j])
 
 AllowedCount(inf) ==
